@@ -102,8 +102,11 @@ func (w *c07World) addResident(t *rapid.T, name string) (string, bool) {
 		}
 		res[apiext.ResourceGPUMemoryRatio] = c07Quantity(apiext.ResourceGPUMemoryRatio, ratio)
 		res[apiext.ResourceGPUMemory] = c07Quantity(apiext.ResourceGPUMemory, mem)
-		for _, rn := range []corev1.ResourceName{apiext.ResourceGPUCore, apiext.ResourceGPUMemoryRatio, apiext.ResourceGPUMemory} {
-			requested["gpu/"+string(rn)] = true
+		requested["gpu/"+string(apiext.ResourceGPUCore)] = true
+		if ratio*total/100 == mem {
+			requested["gpu/"+string(apiext.ResourceGPUMemoryRatio)] = true // asked as a ratio; bytes truncated as fillGPUTotalMem records them
+		} else {
+			requested["gpu/"+string(apiext.ResourceGPUMemory)] = true // asked in bytes
 		}
 	} else {
 		rn := c07TypeResource(d.Type)
